@@ -5,11 +5,48 @@
 //! two moments of one world) comparable.
 
 use crate::common::*;
-use anda_cognitive_nexus::nexus::DEFAULT_SPACE;
+use anda_cognitive_nexus::CognitiveNexus;
+use anda_cognitive_nexus::nexus::{DEFAULT_SPACE, Session};
 use anda_cognitive_nexus::store::rows::*;
 use anda_kip::{Executor, Json, Request, Response};
+use object_store::ObjectStore;
 use serde_json::json;
 use std::collections::{BTreeMap, BTreeSet, HashMap};
+use std::future::Future;
+use std::sync::Arc;
+
+/// A nexus over a caller-supplied object store, the single-threaded runtime it
+/// lives on and a system-principal session (what `common::Env` is over an
+/// in-memory store; the overlap sub-check needs a parking store underneath).
+pub struct Host {
+    rt: tokio::runtime::Runtime,
+    pub nexus: CognitiveNexus,
+    pub system: Session,
+}
+
+impl Host {
+    pub fn over(name: &str, store: Arc<dyn ObjectStore>) -> Result<Host, String> {
+        let rt = tokio::runtime::Builder::new_current_thread().enable_time().build().map_err(|e| format!("runtime: {e}"))?;
+        let nexus = rt.block_on(async {
+            let db = anda_db::database::AndaDB::connect(store, anda_db::database::DBConfig { name: name.to_string(), description: "vf-nexus".to_string(), ..Default::default() })
+                .await
+                .map_err(|e| format!("AndaDB::connect: {e:?}"))?;
+            let nexus = CognitiveNexus::connect(Arc::new(db)).await.map_err(|e| format!("CognitiveNexus::connect: {e:?}"))?;
+            nexus
+                .install_and_activate(&[("bundled", COGNITIVE_MEMORY), ("verif", TEST_PACKAGE)], DEFAULT_SPACE)
+                .await
+                .map_err(|e| format!("install_and_activate: {e:?}"))?;
+            Ok::<_, String>(nexus)
+        })?;
+        let system = nexus.system_session();
+        Ok(Host { rt, nexus, system })
+    }
+
+    /// Runs a future to completion on this host's runtime.
+    pub fn run<F: Future>(&self, f: F) -> F::Output {
+        self.rt.block_on(f)
+    }
+}
 
 
 /// A second MemorySpace; one concept lives there so that a statement of the
@@ -25,7 +62,7 @@ pub const IDEM: [&str; 3] = ["idem-0", "idem-1", "idem-2"];
 pub const ELEMENT_COLLECTIONS: [(&str, char); 5] = [("concepts", 'C'), ("propositions", 'P'), ("assertions", 'A'), ("evidence", 'E'), ("activities", 'X')];
 
 pub struct World {
-    pub env: Env,
+    pub env: Host,
     /// id of the concept that lives in [`OTHER_SPACE`]
     pub foreign: String,
 }
@@ -65,7 +102,7 @@ impl Reply {
     }
 }
 
-fn envelope(text: &str, params: &Json, send: &Send) -> Result<Request, String> {
+pub fn envelope(text: &str, params: &Json, send: &Send) -> Result<Request, String> {
     let mut op = json!({"command": text});
     if let Json::Object(m) = params {
         if !m.is_empty() {
@@ -92,7 +129,12 @@ fn envelope(text: &str, params: &Json, send: &Send) -> Result<Request, String> {
 
 impl World {
     pub fn new(name: &str) -> Result<World, String> {
-        let env = Env::new(name)?;
+        Self::over(name, Arc::new(object_store::memory::InMemory::new()))
+    }
+
+    /// The same world over the caller's object store.
+    pub fn over(name: &str, store: Arc<dyn ObjectStore>) -> Result<World, String> {
+        let env = Host::over(name, store)?;
         env.run(async {
             use anda_cognitive_nexus::store::space::SpaceDraft;
             env.nexus
@@ -123,20 +165,7 @@ impl World {
 
     /// Parses and executes one KIP text as the system principal.
     pub fn send(&self, text: &str, params: &Json, send: &Send) -> Reply {
-        let request = match envelope(text, params, send) {
-            Ok(r) => r,
-            Err(e) => {
-                let r = Response::from(anda_kip::KipError::invalid_request_envelope(e));
-                return Reply { json: serde_json::to_value(&r).unwrap_or(Json::Null), parse_failed: true };
-            }
-        };
-        let (response, parse_failed) = self.env.run(async {
-            match request.operations[0].parse() {
-                Ok(command) => (self.env.system.execute(command, &request, &request.operations[0]).await, false),
-                Err(err) => (Response::from(err), true),
-            }
-        });
-        Reply { json: serde_json::to_value(&response).unwrap_or(Json::Null), parse_failed }
+        self.env.run(send_on(&self.env.system, text, params, send))
     }
 
     /// Every row of the eight collections a KML statement can write, by row id.
@@ -173,6 +202,23 @@ impl World {
             Ok(Dump { cols, max_ids, other })
         })
     }
+}
+
+/// Parses and executes one KIP text through `session` (the asynchronous form of
+/// [`World::send`]: tasks of the overlap sub-check run it concurrently).
+pub async fn send_on(session: &Session, text: &str, params: &Json, send: &Send) -> Reply {
+    let request = match envelope(text, params, send) {
+        Ok(r) => r,
+        Err(e) => {
+            let r = Response::from(anda_kip::KipError::invalid_request_envelope(e));
+            return Reply { json: serde_json::to_value(&r).unwrap_or(Json::Null), parse_failed: true };
+        }
+    };
+    let (response, parse_failed) = match request.operations[0].parse() {
+        Ok(command) => (session.execute(command, &request, &request.operations[0]).await, false),
+        Err(err) => (Response::from(err), true),
+    };
+    Reply { json: serde_json::to_value(&response).unwrap_or(Json::Null), parse_failed }
 }
 
 #[derive(Clone, Debug, PartialEq)]
@@ -476,20 +522,24 @@ impl World {
         let mut out = BTreeMap::new();
         for p in probes {
             let r = self.send(&p.text, &Json::Null, &Send::default());
-            let body = if r.succeeded() {
-                let mut b = json!({"result": r.body().clone()});
-                if let Some(c) = r.json["results"][0].get("next_cursor") {
-                    if !c.is_null() {
-                        b["next_cursor"] = c.clone();
-                    }
-                }
-                b
-            } else {
-                json!({"error": r.error_code().unwrap_or_default()})
-            };
-            out.insert(p.name.clone(), (p.kind, body));
+            out.insert(p.name.clone(), (p.kind, answer_of(&r)));
         }
         out
+    }
+}
+
+/// What a read answered, in the form the normalisation takes.
+pub fn answer_of(r: &Reply) -> Json {
+    if r.succeeded() {
+        let mut b = json!({"result": r.body().clone()});
+        if let Some(c) = r.json["results"][0].get("next_cursor") {
+            if !c.is_null() {
+                b["next_cursor"] = c.clone();
+            }
+        }
+        b
+    } else {
+        json!({"error": r.error_code().unwrap_or_default()})
     }
 }
 
